@@ -19,6 +19,10 @@ def wireOp (args : List String) : String :=
     match hexOrEmpty addr with
     | some a => showHex (Wire.buildRcpt a)
     | none => "bad-op"
+  | ["hop", addr, rcpts, parts] =>
+    match hexOrEmpty addr, parseBytesList rcpts, parseBytesList parts with
+    | some a, some rs, some ps => showHex (Wire.hopBytes a rs ps)
+    | _, _, _ => "bad-op"
   | ["parseaddr", kw, line] =>
     -- the server side: command line -> (command, address, rest)
     match hexOrEmpty line with
